@@ -514,13 +514,32 @@ pub enum ResultWithDeserializedMetadata {
     SchemaChange(SchemaChange),
 }
 
+/// How deeply CQL types may be nested in a type received from the server.
+/// Parsing (and later dropping, formatting, type checking) a type recurses once
+/// per nesting level, so an unbounded depth lets a malformed frame overflow the stack.
+const MAX_TYPE_NESTING_DEPTH: usize = 128;
+
 fn deser_type_generic<'frame, 'result, StrT: Into<Cow<'result, str>>>(
     buf: &mut &'frame [u8],
     read_string: fn(&mut &'frame [u8]) -> StdResult<StrT, LowLevelDeserializationError>,
     read_custom_type: fn(&'frame str) -> StdResult<ColumnType<'result>, CustomTypeParseError>,
 ) -> StdResult<ColumnType<'result>, CqlTypeParseError> {
+    deser_type_generic_nested(buf, read_string, read_custom_type, 0)
+}
+
+fn deser_type_generic_nested<'frame, 'result, StrT: Into<Cow<'result, str>>>(
+    buf: &mut &'frame [u8],
+    read_string: fn(&mut &'frame [u8]) -> StdResult<StrT, LowLevelDeserializationError>,
+    read_custom_type: fn(&'frame str) -> StdResult<ColumnType<'result>, CustomTypeParseError>,
+    depth: usize,
+) -> StdResult<ColumnType<'result>, CqlTypeParseError> {
     use ColumnType::*;
     use NativeType::*;
+    if depth > MAX_TYPE_NESTING_DEPTH {
+        return Err(CqlTypeParseError::TypeNestingTooDeep(
+            MAX_TYPE_NESTING_DEPTH,
+        ));
+    }
     let id =
         types::read_short(buf).map_err(|err| CqlTypeParseError::TypeIdParseError(err.into()))?;
     Ok(match id {
@@ -551,25 +570,37 @@ fn deser_type_generic<'frame, 'result, StrT: Into<Cow<'result, str>>>(
         0x0015 => Native(Duration),
         0x0020 => Collection {
             frozen: false,
-            typ: CollectionType::List(Box::new(deser_type_generic(
+            typ: CollectionType::List(Box::new(deser_type_generic_nested(
                 buf,
                 read_string,
                 read_custom_type,
+                depth + 1,
             )?)),
         },
         0x0021 => Collection {
             frozen: false,
             typ: CollectionType::Map(
-                Box::new(deser_type_generic(buf, read_string, read_custom_type)?),
-                Box::new(deser_type_generic(buf, read_string, read_custom_type)?),
+                Box::new(deser_type_generic_nested(
+                    buf,
+                    read_string,
+                    read_custom_type,
+                    depth + 1,
+                )?),
+                Box::new(deser_type_generic_nested(
+                    buf,
+                    read_string,
+                    read_custom_type,
+                    depth + 1,
+                )?),
             ),
         },
         0x0022 => Collection {
             frozen: false,
-            typ: CollectionType::Set(Box::new(deser_type_generic(
+            typ: CollectionType::Set(Box::new(deser_type_generic_nested(
                 buf,
                 read_string,
                 read_custom_type,
+                depth + 1,
             )?)),
         },
         0x0030 => {
@@ -586,7 +617,8 @@ fn deser_type_generic<'frame, 'result, StrT: Into<Cow<'result, str>>>(
             for _ in 0..fields_size {
                 let field_name =
                     read_string(buf).map_err(CqlTypeParseError::UdtFieldNameParseError)?;
-                let field_type = deser_type_generic(buf, read_string, read_custom_type)?;
+                let field_type =
+                    deser_type_generic_nested(buf, read_string, read_custom_type, depth + 1)?;
 
                 field_types.push((field_name.into(), field_type));
             }
@@ -606,7 +638,12 @@ fn deser_type_generic<'frame, 'result, StrT: Into<Cow<'result, str>>>(
                 .into();
             let mut types = Vec::with_capacity(len);
             for _ in 0..len {
-                types.push(deser_type_generic(buf, read_string, read_custom_type)?);
+                types.push(deser_type_generic_nested(
+                    buf,
+                    read_string,
+                    read_custom_type,
+                    depth + 1,
+                )?);
             }
             Tuple(types)
         }
